@@ -22,6 +22,7 @@ import (
 	"os"
 	"path/filepath"
 	"reflect"
+	"regexp"
 	"runtime/debug"
 	"strings"
 	"testing"
@@ -77,6 +78,104 @@ func load(rt reflect.Type, fn func(v any) error) (o outcome) {
 	}()
 	o.err = fn(p.Interface())
 	return
+}
+
+
+// labelClass coarsens a mutation label for use in violation keys: the position
+// (@field/@slice-elem/@map-elem) stays in the witness only, signed and unsigned integers
+// are one class, and so are all nulls.
+func labelClass(label string) string {
+	if i := strings.IndexByte(label, '@'); i >= 0 {
+		label = label[:i]
+	}
+	if strings.HasPrefix(label, "null-for-") {
+		return "null"
+	}
+	label = strings.Replace(label, "float-integral-big-", "float-integral-", 1)
+	label = strings.Replace(label, "empty-array-", "array-", 1)
+	label = strings.Replace(label, "empty-map-", "map-", 1)
+	if strings.HasSuffix(label, "-for-uint") {
+		label = strings.TrimSuffix(label, "uint") + "int"
+	}
+	return label
+}
+
+var frameRe = regexp.MustCompile(`(?m)^github\.com/zeromicro/go-zero/(\S+?)\((?:0x|\{|\.\.\.|\))`)
+
+// panicKey classifies a panic by the innermost go-zero function on the stack and the
+// kind of run-time error, so that one defect has one key whatever the input was.
+func panicKey(p string) string {
+	msg := p
+	if i := strings.IndexByte(msg, '\n'); i >= 0 {
+		msg = msg[:i]
+	}
+	if i := strings.IndexByte(msg, ':'); i >= 0 {
+		msg = msg[:i]
+	}
+	fn := "unknown-frame"
+	if m := frameRe.FindStringSubmatch(p); m != nil {
+		fn = m[1]
+	}
+	return "C17/panic/" + fn + "/" + kit.KeyPart(msg)
+}
+
+// diffClass names the first difference between two values of the same type.
+func diffClass(a, b reflect.Value) string {
+	if !a.IsValid() || !b.IsValid() || a.Type() != b.Type() {
+		return "type"
+	}
+	switch a.Kind() {
+	case reflect.Ptr:
+		if a.IsNil() != b.IsNil() {
+			return "nil-pointer-vs-value"
+		}
+		if a.IsNil() {
+			return ""
+		}
+		return diffClass(a.Elem(), b.Elem())
+	case reflect.Struct:
+		for i := 0; i < a.NumField(); i++ {
+			if d := diffClass(a.Field(i), b.Field(i)); d != "" {
+				return d
+			}
+		}
+		return ""
+	case reflect.Slice:
+		if a.Len() != b.Len() {
+			return "slice-length"
+		}
+		if a.IsNil() != b.IsNil() {
+			return "nil-slice-vs-empty-slice"
+		}
+		for i := 0; i < a.Len(); i++ {
+			if d := diffClass(a.Index(i), b.Index(i)); d != "" {
+				return d
+			}
+		}
+		return ""
+	case reflect.Map:
+		if a.Len() != b.Len() {
+			return "map-length"
+		}
+		if a.IsNil() != b.IsNil() {
+			return "nil-map-vs-empty-map"
+		}
+		for _, k := range a.MapKeys() {
+			bv := b.MapIndex(k)
+			if !bv.IsValid() {
+				return "map-keys"
+			}
+			if d := diffClass(a.MapIndex(k), bv); d != "" {
+				return d
+			}
+		}
+		return ""
+	default:
+		if !reflect.DeepEqual(a.Interface(), b.Interface()) {
+			return a.Kind().String() + "-value"
+		}
+		return ""
+	}
 }
 
 var fmtNames = [3]string{"json", "yaml", "toml"}
@@ -141,8 +240,8 @@ func reportPanics(c *kit.Case, rt reflect.Type, label string, tx texts, res [3]o
 	for i, o := range res {
 		if o.panic != "" {
 			found = true
-			c.Viol("C17/panic/conf-load-"+fmtNames[i]+"/"+label, "go-zero panicked while loading a document",
-				map[string]any{"type": typeText(rt), "label": label, "document": tx[i], "panic": o.panic})
+			c.Viol(panicKey(o.panic), "go-zero panicked while loading a document (conf.LoadFrom"+fmtNames[i]+"Bytes)",
+				map[string]any{"type": typeText(rt), "label": label, "format": fmtNames[i], "document": tx[i], "panic": o.panic})
 		}
 	}
 	return found
@@ -161,7 +260,7 @@ func threeWay(c *kit.Case, rt reflect.Type, label string, tx texts) ([3]outcome,
 			"json_result": res[0].describe(), "yaml_result": res[1].describe(), "toml_result": res[2].describe()}
 	}
 	if acc[0] != acc[1] || acc[0] != acc[2] {
-		c.Viol("C17/verdict/"+label+"/"+pattern(acc), "the same document is accepted in one format and rejected in another", wit())
+		c.Viol("C17/verdict/"+labelClass(label)+"/"+pattern(acc), "the same document is accepted in one format and rejected in another", wit())
 		return res, false
 	}
 	if !acc[0] {
@@ -184,7 +283,7 @@ func threeWay(c *kit.Case, rt reflect.Type, label string, tx texts) ([3]outcome,
 		default:
 			p = "all-differ"
 		}
-		c.Viol("C17/value/"+label+"/"+p, "the same document loads to different values depending on the format", wit())
+		c.Viol("C17/value/"+labelClass(label)+"/"+p, "the same document loads to different values depending on the format", wit())
 		return res, false
 	}
 	return res, true
@@ -302,7 +401,7 @@ func runPair(c *kit.Case, t *tdesc, plain bool, scratch string, idx int) {
 							}
 						}
 						if len(bad) > 0 {
-							cls := label
+							cls := labelClass(label)
 							if label == "well-typed" || label == "extra-key" || strings.HasPrefix(label, "missing-") {
 								cls += "/" + shapeClass(t)
 							}
@@ -352,7 +451,7 @@ func fileOracle(c *kit.Case, rt reflect.Type, label string, tx texts, want [3]ou
 			got := load(rt, func(v any) error { return conf.Load(file, v, opts...) })
 			c.Obs("file_loads", 1)
 			if got.panic != "" {
-				c.Viol("C17/panic/conf-Load-"+fmtNames[i]+"/"+label, "conf.Load panicked",
+				c.Viol(panicKey(got.panic), "conf.Load panicked",
 					map[string]any{"type": typeText(rt), "file": ext, "document": tx[i], "panic": got.panic})
 				continue
 			}
@@ -370,7 +469,7 @@ func fileOracle(c *kit.Case, rt reflect.Type, label string, tx texts, want [3]ou
 func stdjson(c *kit.Case, rt reflect.Type, label, text string) {
 	a := load(rt, func(v any) error { return mapping.UnmarshalJsonBytes([]byte(text), v) })
 	if a.panic != "" {
-		c.Viol("C17/panic/mapping-UnmarshalJsonBytes/"+label, "mapping.UnmarshalJsonBytes panicked",
+		c.Viol(panicKey(a.panic), "mapping.UnmarshalJsonBytes panicked",
 			map[string]any{"type": typeText(rt), "label": label, "document": text, "panic": a.panic})
 		return
 	}
@@ -379,7 +478,7 @@ func stdjson(c *kit.Case, rt reflect.Type, label, text string) {
 	case a.ok() && b.ok():
 		c.Obs("stdjson_both_accept", 1)
 		if !reflect.DeepEqual(a.val.Interface(), b.val.Interface()) {
-			c.Viol("C17/stdjson-value/"+label, "mapping.UnmarshalJsonBytes and encoding/json both accept the input but decode different values",
+			c.Viol("C17/stdjson-value/"+diffClass(a.val, b.val)+"/"+labelClass(label), "mapping.UnmarshalJsonBytes and encoding/json both accept the input but decode different values",
 				map[string]any{"type": typeText(rt), "label": label, "document": text,
 					"gozero": show(a.val), "encoding_json": show(b.val),
 					"gozero_go": truncate(fmt.Sprintf("%#v", a.val.Interface()), 800), "encoding_json_go": truncate(fmt.Sprintf("%#v", b.val.Interface()), 800)})
@@ -493,6 +592,23 @@ type EnvConf struct {
 		Path    string `json:"path"`
 		Retries int    `json:"retries,default=3"`
 	} `json:"sub"`
+}
+
+// normEnv: the statement does not distinguish nil from empty containers in the harness's
+// own expectation (go-zero's conf loader yields nil for an empty array).
+func normEnv(e EnvConf) EnvConf {
+	if len(e.Tags) == 0 {
+		e.Tags = nil
+	}
+	if len(e.Meta) == 0 {
+		e.Meta = nil
+	}
+	return e
+}
+
+func envEq(got any, want EnvConf) bool {
+	g, ok := got.(EnvConf)
+	return ok && reflect.DeepEqual(normEnv(g), normEnv(want))
 }
 
 var envNames = []string{"C17_A", "C17_B", "C17_EMPTY", "C17_UNSET"}
@@ -612,12 +728,12 @@ func runEnv(c *kit.Case, scratch string) {
 		c.Obs("env_loads_UseEnv", 1)
 		switch {
 		case got.panic != "":
-			c.Viol("C17/panic/conf-Load-UseEnv-"+fmtNames[i]+"/env", "conf.Load panicked", wit(got, exp, "UseEnv"))
+			c.Viol(panicKey(got.panic), "conf.Load panicked", wit(got, exp, "UseEnv"))
 		case got.err != nil:
 			c.Viol("C17/env/UseEnv-rejected/"+fmtNames[i], "conf.Load with UseEnv rejects a document that is valid after expansion", wit(got, exp, "UseEnv"))
-		case !reflect.DeepEqual(got.val.Interface(), exp):
+		case !envEq(got.val.Interface(), exp):
 			k := "wrong-value"
-			if reflect.DeepEqual(got.val.Interface(), lit) {
+			if envEq(got.val.Interface(), lit) {
 				k = "not-expanded"
 			}
 			c.Viol("C17/env/UseEnv-"+k+"/"+fmtNames[i], "conf.Load with UseEnv did not yield the expanded values", wit(got, exp, "UseEnv"))
@@ -633,12 +749,12 @@ func runEnv(c *kit.Case, scratch string) {
 			c.Obs("env_loads_plain", 1)
 			switch {
 			case got.panic != "":
-				c.Viol("C17/panic/conf-Load-"+fmtNames[i]+"/env", "conf.Load panicked", wit(got, lit, "plain"))
+				c.Viol(panicKey(got.panic), "conf.Load panicked", wit(got, lit, "plain"))
 			case got.err != nil:
 				c.Viol("C17/env/plain-rejected/"+fmtNames[i], "conf.Load without UseEnv rejects a valid document containing ${VAR} text", wit(got, lit, "plain"))
-			case !reflect.DeepEqual(got.val.Interface(), lit):
+			case !envEq(got.val.Interface(), lit):
 				k := "wrong-value"
-				if placeholders && reflect.DeepEqual(got.val.Interface(), exp) {
+				if placeholders && envEq(got.val.Interface(), exp) {
 					k = "expanded-although-not-requested"
 				}
 				c.Viol("C17/env/plain-"+k+"/"+fmtNames[i], "conf.Load without UseEnv did not keep ${VAR} text literally", wit(got, lit, "plain"))
@@ -649,7 +765,7 @@ func runEnv(c *kit.Case, scratch string) {
 			}
 			// bytes loaders never expand
 			gb := load(rt, func(v any) error { return loaders[i]([]byte(tx[i]), v) })
-			if gb.ok() && placeholders && !reflect.DeepEqual(gb.val.Interface(), lit) {
+			if gb.ok() && placeholders && !envEq(gb.val.Interface(), lit) {
 				c.Viol("C17/env/bytes-loader-wrong-value/"+fmtNames[i], "LoadFromXBytes did not keep ${VAR} text literally", wit(gb, lit, "bytes"))
 			}
 		}
